@@ -12,7 +12,7 @@ Lemma readonly_lemma :
 Proof. vm_compute. reflexivity. Qed.
 
 Lemma routes_complete_lemma :
-  routes_complete GenCallPath.routes && excluded_present GenCallPath.routes = true.
+  routes_complete GenCallPath.routes = true.
 Proof. vm_compute. reflexivity. Qed.
 
 Lemma dispatch_jump_lemma :
